@@ -166,4 +166,28 @@ PROPS["C07"] = {
     "level_note": "legacy flag conversion (LegacyHeaders.convert) is exercised on the real proxy with oracles, not modelled in Coq.",
 }
 
+PROPS["C06"] = {
+    "drivers": [dict(MAIN, timeout=3000)],
+    "rule": "(1) redirect.Validator.IsValidRedirect for 6 whitelists (none, exact, leading-dot, wildcard, port, any-port) on every string over a "
+            "28-token adversarial alphabet (slashes, backslashes, ASCII/Unicode white space, control characters, dot segments, userinfo, "
+            "ports, IPv6 literals, percent-encodings, scheme/case tricks) up to 3 tokens (4 in thorough), random strings of up to 7 tokens and a "
+            "corpus of classic payloads: decision vectors compared with the model; every accepted string is turned into the Location "
+            "http.Redirect emits and resolved with Node's WHATWG URL parser; (2) AppDirector.GetRedirect on random combinations of rd, "
+            "X-Auth-Request-Redirect, X-Forwarded-*, request target, reverse-proxy on/off; (3) start->callback, forged state redirect, "
+            "sign_out and sign_in form login on the real proxy, encode-state on/off; non-trivial = strings that begin like a redirect or are "
+            "accepted; distinct = distinct model call",
+    "assumptions": ["net/url.Parse (Hostname/Port of http(s) URLs) is a modelled function: in the correspondence a table computed with the "
+                    "standard library; Go regexp is replaced by a hand-written scanner pinned to the literal regenerated from source",
+                    "the browser is modelled for targets beginning with '/' only (c06_relative); for absolute targets the browser's reading is "
+                    "checked by the Node oracle on every accepted string, not proved (no model of WHATWG host parsing / IDNA here)"],
+    "trusted_base": ["Node 20 WHATWG URL as the browser; reference whitelist reading in the driver (vRefAllowed)"],
+    "level_text": "c06_relative (for every byte string: accepted by the relative rule => a browser stays on the request host), "
+                  "c06_accepted_cases, c06_empty_whitelist, c06_chain (every target GetRedirect returns is '/' or validated, for every request), "
+                  "c06_callback, c06_identity (a valid rd path is returned byte for byte), c06_regex_literal are proved on the Gallina model of "
+                  "validator.go / director.go / getters.go; decisions are compared with the Go code on an exhaustive token enumeration and every "
+                  "accepted target is resolved by a real WHATWG URL parser on every run.",
+    "level_note": "_partial for absolute targets: agreement between net/url's and a browser's host parsing is exercised (Node), not proved; "
+                  "http.Redirect's path cleaning is exercised through the emitted Location, not modelled.",
+}
+
 NOT_APPLICABLE = {}
